@@ -68,6 +68,7 @@ type BootArgs struct {
 	Recover  bool     `json:"recover,omitempty"`
 	ExtraYml string   `json:"extraYaml,omitempty"`
 	Debug    bool     `json:"debug,omitempty"`
+	Server   bool     `json:"server,omitempty"` // boot the whole server (real routers on loopback ports) through StartSiglensServer
 	Features []string `json:"features,omitempty"`
 }
 
@@ -96,7 +97,11 @@ func boot(raw json.RawMessage) (interface{}, error) {
 	if err := os.Chdir(a.Dir); err != nil {
 		return nil, err
 	}
-	yaml := fmt.Sprintf("dataPath: %sdata/\nlogPrefix: %slogs/\n%s", a.Dir, a.Dir, a.ExtraYml)
+	yaml := fmt.Sprintf("dataPath: %sdata/\nlog:\n  logPrefix: %slogs/\n%s", a.Dir, a.Dir, a.ExtraYml)
+	if a.Server {
+		IngestPort, QueryPort = freePort(), freePort()
+		yaml += fmt.Sprintf("ingestListenIP: 127.0.0.1\nqueryListenIP: 127.0.0.1\ningestPort: %d\nqueryPort: %d\n", IngestPort, QueryPort)
+	}
 	cfg, err := config.ExtractConfigData([]byte(yaml))
 	if err != nil {
 		return nil, fmt.Errorf("ExtractConfigData: %v", err)
@@ -132,6 +137,18 @@ func boot(raw json.RawMessage) (interface{}, error) {
 		if err := f(&a); err != nil {
 			return nil, err
 		}
+	}
+	if a.Server {
+		if err := bootServer(&a); err != nil {
+			return nil, err
+		}
+		for _, f := range postBootHooks {
+			if err := f(&a); err != nil {
+				return nil, err
+			}
+		}
+		booted = true
+		return map[string]interface{}{"dir": a.Dir, "ingestPort": IngestPort, "queryPort": QueryPort}, nil
 	}
 	limit.InitMemoryLimiter()
 	if err := vtable.InitVTable(serverutils.GetMyIds); err != nil {
